@@ -444,6 +444,19 @@ func (E *Engine) typeTagByName(pkgPath, name string) *Term {
 	return IntC(-1)
 }
 
+// funcByRef: the function whose identity constant is t (see funcRef).
+func (E *Engine) funcByRef(t *Term) *ssa.Function {
+	if !t.IsConst() {
+		return nil
+	}
+	for f, id := range E.funcRefs {
+		if t.C.Cmp(big.NewInt(int64(-100000-id))) == 0 {
+			return f
+		}
+	}
+	return nil
+}
+
 func (E *Engine) funcRef(f *ssa.Function) *Term {
 	id, ok := E.funcRefs[f]
 	if !ok {
